@@ -4,6 +4,8 @@ use bytes::BytesMut;
 
 use super::MultithreadedWriter;
 use crate::io::writer::CompressionLevel;
+#[cfg(noodles_verif)]
+use crate::verif::{crossbeam_channel, rayon};
 
 /// A multithreaded BGZF writer builder.
 pub struct Builder {
